@@ -1,14 +1,13 @@
 /* C05 harnesses.  *.inc files are generated from /repo on every run (specs/C05/spec.py). */
 #include "verif.h"
 #define unsigned_SP_char unsigned char
+#define signed_SP_char signed char
+#define unsigned_SP_short unsigned short
 typedef unsigned char depth_t;
 #define MaxCapacity 8
 #define __TBB_DEMAND_DEPTH_ADD 1
 #ifndef PART_FACTOR
 #define PART_FACTOR 1u
-#endif
-#ifdef PFOR
-typedef Index Value_t;
 #endif
 #define DESTROY(p) ((void)0)   /* destructor of a trivially destructible range */
 enum { DELAY_begin = 0, DELAY_run, DELAY_pass };
@@ -142,8 +141,18 @@ unsigned char IN_op, IN_maxd;
 void h_rv_ops(void) {
     struct range_vector v; Value B = IN_b = nondet_size_t(), E = IN_e = nondet_size_t(); size_t G = IN_g = nondet_size_t();
     __CPROVER_assume(G > 0);
+#ifdef RV_TAIL
+    v.my_tail = RV_TAIL;
+#endif
+#ifdef RV_SIZE
+    v.my_size = RV_SIZE; v.my_head = (RV_TAIL + RV_SIZE - 1) % MaxCapacity;
+#endif
     __CPROVER_assume(rv_inv(&v, B, E, G) && v.my_size >= 1);
+#ifdef RV_OP
+    unsigned char op = IN_op = RV_OP;
+#else
     unsigned char op = IN_op = nondet_uchar();
+#endif
     depth_t maxd = IN_maxd = nondet_uchar();
     depth_t size0 = v.my_size;
     if (op == 0) {
@@ -203,7 +212,7 @@ static void part_offer_work(struct start_for *st, struct blocked_range *range, s
 #define PART_OFFER_WORK(st, r, p, s) part_offer_work(st, r, p)
 #define PART_WORK_BALANCE(p, st, r) start_run_body(st, r)
 #define LOOP_base_execute_1 __CPROVER_assigns(range->my_end, g_hi, g_nsplits, self->my_divisor, self->my_max_depth, g_right_part) \
-        __CPROVER_loop_invariant(EXEC_INV) __CPROVER_decreases((size_t)(g_hi - g_B0))
+        __CPROVER_loop_invariant(EXEC_INV && (size_t)(g_hi - g_B0) > g_G) __CPROVER_decreases((size_t)(g_hi - g_B0))
 #else
 #define PART_IS_DIVISIBLE(p) 0
 #define PART_SPLIT_T int
@@ -302,8 +311,8 @@ void h_br2d(void) {
     struct blocked_range2d r, n;
     mk_dim(&r.my_rows, &IN_rb, &IN_re, &IN_rg); mk_dim(&r.my_cols, &IN_cb, &IN_ce, &IN_cg);
     __CPROVER_assume(blocked_range2d_is_divisible(&r));
-#ifdef BELOW_2_53
-    __CPROVER_assume(IN_re - IN_rb <= ((size_t)1 << 53) && IN_ce - IN_cb <= ((size_t)1 << 53) && IN_rg <= ((size_t)1 << 53) && IN_cg <= ((size_t)1 << 53));
+#ifdef BELOW_2_50
+    __CPROVER_assume(IN_re - IN_rb <= ((size_t)1 << 50) && IN_ce - IN_cb <= ((size_t)1 << 50) && IN_rg <= ((size_t)1 << 50) && IN_cg <= ((size_t)1 << 50));
 #endif
     n = r; g_dim_bad = false; g_dim_calls = 0;
     blocked_range2d_do_split(&n, &r, 0);
@@ -315,9 +324,9 @@ void h_br3d(void) {
     struct blocked_range3d r, n;
     mk_dim(&r.my_pages, &IN_pb, &IN_pe, &IN_pg); mk_dim(&r.my_rows, &IN_rb, &IN_re, &IN_rg); mk_dim(&r.my_cols, &IN_cb, &IN_ce, &IN_cg);
     __CPROVER_assume(blocked_range3d_is_divisible(&r));
-#ifdef BELOW_2_53
-    __CPROVER_assume(IN_re - IN_rb <= ((size_t)1 << 53) && IN_ce - IN_cb <= ((size_t)1 << 53) && IN_pe - IN_pb <= ((size_t)1 << 53)
-                     && IN_rg <= ((size_t)1 << 53) && IN_cg <= ((size_t)1 << 53) && IN_pg <= ((size_t)1 << 53));
+#ifdef BELOW_2_50
+    __CPROVER_assume(IN_re - IN_rb <= ((size_t)1 << 50) && IN_ce - IN_cb <= ((size_t)1 << 50) && IN_pe - IN_pb <= ((size_t)1 << 50)
+                     && IN_rg <= ((size_t)1 << 50) && IN_cg <= ((size_t)1 << 50) && IN_pg <= ((size_t)1 << 50));
 #endif
     n = r; g_dim_bad = false; g_dim_calls = 0;
     blocked_range3d_do_split(&n, &r, 0);
@@ -329,14 +338,19 @@ void h_br3d(void) {
 
 #ifdef PFOR
 /* ------------------------------------------------------------------ parallel_for(first,last,step) */
-#if defined(IT_int)
-#define IDX_MAX ((__int128)INT_MAX)
-#elif defined(IT_long)
-#define IDX_MAX ((__int128)LONG_MAX)
+#define WIDE long          /* every claimed Index type is at most 32 bits wide, so 64-bit arithmetic is exact */
+#if defined(IT_schar)
+#define IDX_MAX ((WIDE)SCHAR_MAX)
+#elif defined(IT_uchar)
+#define IDX_MAX ((WIDE)UCHAR_MAX)
+#elif defined(IT_short)
+#define IDX_MAX ((WIDE)SHRT_MAX)
+#elif defined(IT_int)
+#define IDX_MAX ((WIDE)INT_MAX)
+#elif defined(IT_ushort)
+#define IDX_MAX ((WIDE)USHRT_MAX)
 #elif defined(IT_unsigned)
-#define IDX_MAX ((__int128)UINT_MAX)
-#else
-#define IDX_MAX ((__int128)SIZE_MAX)
+#define IDX_MAX ((WIDE)UINT_MAX)
 #endif
 bool g_threw, g_pf_called; Index g_rb, g_re; struct pf_body g_body;
 #define VERIF_THROW(id) do { g_threw = true; return; } while (0)
@@ -355,15 +369,17 @@ void h_pfor(void) {
     if (IN_ctx) parallel_for_impl_ctx(first, last, step); else parallel_for_impl(first, last, step);
     OBLIGATION(g_threw == (step <= 0), "C05.pfor: a non-positive step is rejected");
     if (step > 0) {
-        __int128 span = (__int128)last - (__int128)first;
+        WIDE span = (WIDE)last - (WIDE)first;
         OBLIGATION(g_pf_called == (span > 0), "C05.pfor: the loop runs iff first < last");
         if (span > 0) {
             /* N = ceil(span/step) without dividing: (N-1)*step < span <= N*step.  Only claimed when N is representable in Index. */
-            __int128 N = (__int128)g_re;
-            bool representable = span <= IDX_MAX * (__int128)step;   /* ceil(span/step) <= IDX_MAX */
-            if (representable) {
+            WIDE N = (WIDE)g_re;
+            bool representable = span <= IDX_MAX * (WIDE)step;   /* ceil(span/step) <= IDX_MAX */
+            /* F3 domain: the span itself does not fit Index although the iteration count does (signed Index only) */
+            bool span_fits = span <= IDX_MAX;
+            if (representable && span_fits) {
                 OBLIGATION(g_rb == 0 && g_re > 0, "C05.pfor: iteration space starts at 0 and is non-empty");
-                OBLIGATION((N - 1) * (__int128)step < span && span <= N * (__int128)step, "C05.pfor: number of iterations == ceil((last-first)/step)");
+                OBLIGATION((N - 1) * (WIDE)step < span && span <= N * (WIDE)step, "C05.pfor: number of iterations == ceil((last-first)/step)");
                 OBLIGATION(g_body.my_begin == first && g_body.my_step == step, "C05.pfor: body wrapper carries first and step");
                 /* one arbitrary iteration k of the space is handed the value first + k*step */
                 Index k = IN_kk = nondet_u64();
@@ -371,7 +387,11 @@ void h_pfor(void) {
                 struct blocked_range one; blocked_range_ctor(&one, k, k + 1, 1);
                 g_inv_called = false;
                 pf_body_call(&g_body, &one);
-                OBLIGATION(g_inv_called && (__int128)g_inv_val == (__int128)first + (__int128)k * (__int128)step, "C05.pfor: iteration k is applied to first + k*step");
+                OBLIGATION(g_inv_called && (WIDE)g_inv_val == (WIDE)first + (WIDE)k * (WIDE)step, "C05.pfor: iteration k is applied to first + k*step");
+            }
+            if (representable && !span_fits) {
+                OBLIGATION(g_rb == 0 && g_re > 0 && (N - 1) * (WIDE)step < span && span <= N * (WIDE)step,
+                           "C05.pfor[span > Index max]: number of iterations == ceil((last-first)/step) when last-first overflows Index but the count fits");
             }
         }
     }
